@@ -61,6 +61,9 @@ def plugin_classes():
             super().__init__("rec-logger", None)
             self.log = log
 
+        def __len__(self):          # a plugin may well be a buffer that is empty right now: it is still THE logger
+            return 0
+
         def log_tracepoint(self, log_msg, tp_id, ctx_id):
             self.log.append(("log", tp_id, threading.get_ident(), dict(msg=log_msg, tp_id=tp_id, ctx_id=ctx_id)))
 
@@ -73,11 +76,17 @@ def plugin_classes():
             self.closed += 1
             self.log.append(("span-close", self.tp_id, threading.get_ident(), self))
 
+        def __len__(self):          # a span with no events recorded yet is still a span
+            return 0
+
     class RecSpans(SpanProcessor):
         def __init__(self, log, pname="spans"):
             super().__init__(pname, None)
             self.log, self.pname = log, pname
             self.spans = []
+
+        def __len__(self):
+            return 0
 
         def create_span(self, name, context_id, tracepoint_id):
             s = RecSpan(self.log, name, context_id, tracepoint_id, self.pname)
@@ -92,6 +101,9 @@ def plugin_classes():
         def __init__(self, log, pname="metrics"):
             super().__init__(pname, None)
             self.log, self.pname = log, pname
+
+        def __len__(self):          # a processor that buffers samples and holds none right now is still a processor
+            return 0
 
         def _rec(self, op, name, labels, namespace, help_string, unit, value):
             self.log.append(("metric", None, threading.get_ident(),
